@@ -267,6 +267,8 @@ PLANS = {
             {"name": "threads", "cmd": "threads", "configs": cfgs(NATIVE), "shards": shards(16, 16), "needs_mvexec": True, "args": ["--scale", "16"]},
             {"name": "miri-schedules", "kind": "miri-threads", "configs": cfgs(["N-auto", "M-x86", "M-avx2"]),
              "programs": {"quick": 8, "thorough": 100}, "seeds": {"quick": 3, "thorough": 25}},
+            {"name": "tsan-threads", "kind": "tsan-threads", "configs": cfgs(["N-auto", "T-tsan"]), "thorough_only": True,
+             "programs": {"quick": 0, "thorough": 200}, "repeats": {"quick": 0, "thorough": 10}},
         ],
         "assumptions": DEFAULT_ASSUMPTIONS + ["native interleavings are whatever the OS scheduler produces; only the Miri stage owns its schedule; nothing is exhaustive over schedules"],
     },
